@@ -1,5 +1,6 @@
 """BaseGraph-specific vocabulary resolved from the program itself: graph classes, state roles
 (A adjacency, S size, N edge count, L label store, T totals), the range sanitizer, call graph."""
+import re
 from collections import defaultdict
 
 from .ir import AnalysisBroken
@@ -89,7 +90,7 @@ class Model:
             for r in u.records:
                 if r['tname'] == LDG:
                     for fl in r['fields']:
-                        if fl['ctype'].startswith('std::unordered_map<std::pair<unsigned int, unsigned int>'):
+                        if re.match(r'std::unordered_map<std::pair<(unsigned )?(int|long|long long|short|char), (unsigned )?(int|long|long long|short|char)>', fl['ctype']):
                             cands.add(u.decl(fl['d'])['tname'])
         if len(cands) != 1:
             raise AnalysisBroken('anchor vanished: label store (unordered_map<Edge,...> field of %s) not unique: %s'
